@@ -470,18 +470,24 @@ func normInt(a Atom) Atom {
 	if err != nil {
 		return a
 	}
+	nonNeg := a.U || strings.HasPrefix(a.L, "len(") || strings.HasPrefix(a.L, "cap(")
 	switch a.Op {
 	case ">=":
 		return mkAtom(a.L, ">", strconv.FormatInt(c-1, 10))
 	case "<":
+		if nonNeg && c == 1 {
+			return mkAtom(a.L, "==", "0")
+		}
 		return mkAtom(a.L, "<=", strconv.FormatInt(c-1, 10))
+	case "<=":
+		if nonNeg && c == 0 {
+			return mkAtom(a.L, "==", "0")
+		}
 	}
 	if c == 0 && (a.U || strings.HasPrefix(a.L, "len(") || strings.HasPrefix(a.L, "cap(")) {
-		switch a.Op {
-		case "!=":
+		// a non-negative quantity against zero: {== 0, <= 0, < 1} ≡ `== 0`; {!= 0, > 0, >= 1} ≡ `> 0`
+		if a.Op == "!=" {
 			return mkAtom(a.L, ">", "0")
-		case "==":
-			return mkAtom(a.L, "<=", "0")
 		}
 	}
 	return a
